@@ -278,7 +278,7 @@ fn path_route(ctx: &mut Ctx, scn: &HwScn, geoms: &[Geom], ty: i32, mem_shp: &[u8
             }
         }
         match &p.ending {
-            Ending::Drop => {}
+            Ending::Drop | Ending::PanicUnwind => {}
             Ending::FinDrop => w.finalize()?,
             Ending::WriteShapes(l) => {
                 for i in l.iter().filter(|i| **i < shapes.len()) {
@@ -340,7 +340,7 @@ pub fn c09_sweep_unit(unit: u64, max_len: usize, ctx: &mut Ctx, ctl: &mut UnitCt
     let a = grid_spec(ty, 1, 2, 3);
     let b = grid_spec(ty, 2, 3, 50);
     for seq in sequences(max_len) {
-        for e in 0..3 {
+        for e in 0..4 {
             let calls: Vec<WCall> = seq.iter().map(|c| match c {
                 0 => WCall::W(0),
                 1 => WCall::W(1),
@@ -349,6 +349,7 @@ pub fn c09_sweep_unit(unit: u64, max_len: usize, ctx: &mut Ctx, ctl: &mut UnitCt
             let ending = match e {
                 0 => Ending::Drop,
                 1 => Ending::FinDrop,
+                2 => Ending::PanicUnwind,
                 _ => Ending::WriteShapes(vec![1, 0]),
             };
             let scn = HwScn { w: WProg { shapes: vec![a.clone(), b.clone()], others: vec![], calls, ending, with_shx, stack }, wplan: Plan::default(), path: with_shx && stack == StackCfg::Direct && seq.len() == 3 };
@@ -446,9 +447,10 @@ pub fn generate(r: &mut Rng, focus: &str) -> HwScn {
             calls.push(WCall::Fin);
         }
     }
-    let ending = match r.below(4) {
+    let ending = match r.below(5) {
         0 => Ending::FinDrop,
         1 => Ending::WriteShapes((0..r.usize(0, 3)).map(|_| r.usize(0, n - 1)).collect()),
+        2 => Ending::PanicUnwind,
         _ => Ending::Drop,
     };
     // an Other call after the ending's implicit writes cannot occur; but Other before the first W can
@@ -580,5 +582,252 @@ pub fn fake_unit(unit: u64, ctx: &mut Ctx, ctl: &mut UnitCtl) {
                 ctl.after_case(ctx, || Scenario::FakeOffer(scn.clone()));
             }
         }
+    }
+}
+
+// ---------------------------------------------------------------------------------------------
+// More user-defined shapes: one whose own serialisation fails half-way on its first attempt (C18),
+// and one that emits 64 MiB so that a .shp grows beyond 2 GiB on a sparse sink (C09).
+
+#[derive(Clone, Debug, Serialize, Deserialize)]
+pub struct UserShapeScn {
+    /// "late": a Point-typed shape whose write_to fails after emitting x the first time;
+    /// "big": 33 polyline-typed shapes of 64 MiB each with a finalize after `fin_after` of them
+    pub kind: String,
+    #[serde(default)]
+    pub fin_after: u32,
+    /// fail the k-th operation of the intermediate finalize once (0 = never), "big" only
+    #[serde(default)]
+    pub fail_op: u64,
+}
+
+struct LatePoint {
+    attempts: std::cell::Cell<u32>,
+}
+impl shapefile::HasShapeType for LatePoint {
+    fn shapetype() -> shapefile::ShapeType {
+        shapefile::ShapeType::Point
+    }
+}
+impl shapefile::record::WritableShape for LatePoint {
+    fn size_in_bytes(&self) -> usize {
+        16
+    }
+    fn write_to<T: std::io::Write>(&self, dest: &mut T) -> Result<(), shapefile::Error> {
+        let n = self.attempts.get();
+        self.attempts.set(n + 1);
+        dest.write_all(&7.0f64.to_le_bytes())?;
+        if n == 0 {
+            return Err(shapefile::Error::IoError(std::io::Error::other("the shape is not ready yet")));
+        }
+        dest.write_all(&8.0f64.to_le_bytes())?;
+        Ok(())
+    }
+}
+impl shapefile::record::EsriShape for LatePoint {
+    fn x_range(&self) -> [f64; 2] {
+        [7.0, 7.0]
+    }
+    fn y_range(&self) -> [f64; 2] {
+        [8.0, 8.0]
+    }
+}
+
+const BIG: usize = 64 << 20;
+static ZEROS: [u8; 1 << 20] = [0; 1 << 20];
+struct BigLine;
+impl shapefile::HasShapeType for BigLine {
+    fn shapetype() -> shapefile::ShapeType {
+        shapefile::ShapeType::Polyline
+    }
+}
+impl shapefile::record::WritableShape for BigLine {
+    fn size_in_bytes(&self) -> usize {
+        BIG
+    }
+    fn write_to<T: std::io::Write>(&self, dest: &mut T) -> Result<(), shapefile::Error> {
+        for _ in 0..BIG / ZEROS.len() {
+            dest.write_all(&ZEROS)?;
+        }
+        Ok(())
+    }
+}
+impl shapefile::record::EsriShape for BigLine {
+    fn x_range(&self) -> [f64; 2] {
+        [0.0, 1.0]
+    }
+    fn y_range(&self) -> [f64; 2] {
+        [0.0, 1.0]
+    }
+}
+
+/// A sink that keeps small writes and treats large all-zero writes as holes.
+#[derive(Default, Clone, PartialEq)]
+struct SparseSink {
+    len: u64,
+    pos: u64,
+    small: std::collections::BTreeMap<u64, Vec<u8>>,
+    ops: u64,
+    fail_op: u64,
+}
+impl SparseSink {
+    fn tick(&mut self) -> std::io::Result<()> {
+        self.ops += 1;
+        if self.fail_op != 0 && self.ops == self.fail_op {
+            return Err(std::io::Error::other("simulated fault"));
+        }
+        Ok(())
+    }
+}
+impl std::io::Write for SparseSink {
+    fn write(&mut self, buf: &[u8]) -> std::io::Result<usize> {
+        self.tick()?;
+        if buf.len() <= 4096 {
+            self.small.insert(self.pos, buf.to_vec());
+        }
+        self.pos += buf.len() as u64;
+        self.len = self.len.max(self.pos);
+        Ok(buf.len())
+    }
+    fn flush(&mut self) -> std::io::Result<()> {
+        self.tick()
+    }
+}
+impl std::io::Seek for SparseSink {
+    fn seek(&mut self, to: std::io::SeekFrom) -> std::io::Result<u64> {
+        self.tick()?;
+        let t: i128 = match to {
+            std::io::SeekFrom::Start(n) => n as i128,
+            std::io::SeekFrom::End(d) => self.len as i128 + d as i128,
+            std::io::SeekFrom::Current(d) => self.pos as i128 + d as i128,
+        };
+        if t < 0 || t > u64::MAX as i128 / 2 {
+            return Err(std::io::Error::new(std::io::ErrorKind::InvalidInput, "invalid seek"));
+        }
+        self.pos = t as u64;
+        Ok(self.pos)
+    }
+}
+
+/// Shared handle on a sparse sink, so that the harness can arm a fault right before a finalize.
+struct SinkH(std::rc::Rc<std::cell::RefCell<SparseSink>>);
+impl std::io::Write for SinkH {
+    fn write(&mut self, buf: &[u8]) -> std::io::Result<usize> {
+        self.0.borrow_mut().write(buf)
+    }
+    fn flush(&mut self) -> std::io::Result<()> {
+        self.0.borrow_mut().flush()
+    }
+}
+impl std::io::Seek for SinkH {
+    fn seek(&mut self, to: std::io::SeekFrom) -> std::io::Result<u64> {
+        self.0.borrow_mut().seek(to)
+    }
+}
+
+pub fn execute_user(scn: &UserShapeScn, ctx: &mut Ctx) {
+    match scn.kind.as_str() {
+        "late" => {
+            let world = World::new(Plan::default());
+            let mut w = shapefile::ShapeWriter::new(Stack::writer(&world, SHP, StackCfg::Direct));
+            let offered = || OFFERED_SHP.with(|c| c.get());
+            let late = LatePoint { attempts: std::cell::Cell::new(0) };
+            let r = guarded(|| {
+                let mut deltas = Vec::new();
+                let o = offered();
+                let r0 = w.write_shape(&shapefile::Point::new(1.0, 2.0));
+                deltas.push((r0.is_ok(), offered() - o));
+                let _ = w.write_shape(&late); // fails half-way by itself
+                for s in 0..2 {
+                    let o = offered();
+                    let r = if s == 0 { w.write_shape(&late) } else { w.write_shape(&shapefile::Point::new(3.0, 4.0)) };
+                    deltas.push((r.is_ok(), offered() - o));
+                }
+                deltas
+            });
+            match r {
+                Err(p) => ctx.fail("C18", "panic", p.site(), p.text()),
+                Ok(deltas) => {
+                    for (i, (ok, d)) in deltas.iter().enumerate() {
+                        let want = if i == 0 { 100 + 28 } else { 28 };
+                        if *ok && *d != want {
+                            ctx.fail("C18", "bytes-at-seam", "user-defined-after-own-failure", format!("successful write #{} handed {} bytes to the .shp for an announced size of 16 (+12{})", i, d, if i == 0 { " +100" } else { "" }));
+                        }
+                        if !*ok {
+                            ctx.fail("C18", "write-ok", "user-defined", format!("write #{} of the user-defined history failed", i));
+                        }
+                    }
+                }
+            }
+            ctx.stats.reach("user-defined-shape-failing-by-itself");
+        }
+        "big" => {
+            let run = |fin_after: u32, fail_op: u64| -> Result<Result<SparseSink, String>, PanicInfo> {
+                guarded(move || {
+                    let sink = std::rc::Rc::new(std::cell::RefCell::new(SparseSink::default()));
+                    {
+                        let mut w = shapefile::ShapeWriter::new(SinkH(sink.clone()));
+                        for i in 0..33u32 {
+                            w.write_shape(&BigLine).map_err(|e| format!("write {}: {:?}", i, classify(&e)))?;
+                            if fin_after == i + 1 {
+                                // the fault, if any, is the `fail_op`-th operation of this finalize
+                                {
+                                    let mut sk = sink.borrow_mut();
+                                    sk.ops = 0;
+                                    sk.fail_op = fail_op;
+                                }
+                                // retried while it fails (at most twice)
+                                let mut tries = 0;
+                                while let Err(e) = w.finalize() {
+                                    tries += 1;
+                                    if tries > 2 {
+                                        return Err(format!("finalize: {:?}", classify(&e)));
+                                    }
+                                }
+                                sink.borrow_mut().fail_op = 0;
+                            }
+                        }
+                    }
+                    let mut out = sink.borrow().clone();
+                    out.ops = 0;
+                    out.fail_op = 0;
+                    out.pos = 0;
+                    Ok(out)
+                })
+            };
+            let a = run(scn.fin_after, scn.fail_op);
+            let b = run(0, 0);
+            match (a, b) {
+                (Err(p), _) | (_, Err(p)) => ctx.fail("C09", "panic", format!("panic:big-file:{}", p.loc.rsplit('/').next().unwrap_or("").split(':').next().unwrap_or("")), format!("33 shapes of 64 MiB, finalize after {}: {}", scn.fin_after, p.text())),
+                (Ok(Err(e)), _) | (_, Ok(Err(e))) => ctx.fail("C09", "write-ok", "big-file", format!("33 shapes of 64 MiB, finalize after {}: {}", scn.fin_after, e)),
+                (Ok(Ok(a)), Ok(Ok(b))) => {
+                    if a != b {
+                        ctx.fail("C09", "same-as-drop", "big-file", format!("33 shapes of 64 MiB (a .shp of {} bytes) with a finalize after {} (fault at operation {}): the file differs from write x33, drop ({} vs {} bytes, {} vs {} small writes)", b.len, scn.fin_after, scn.fail_op, a.len, b.len, a.small.len(), b.small.len()));
+                    }
+                }
+            }
+            ctx.stats.reach("shp-beyond-2GiB-written");
+        }
+        _ => ctx.fail("HARNESS", "invalid-scenario", "user-shape", "unknown kind".to_string()),
+    }
+    ctx.stats.distinct.insert(crate::prng::fnv_str(&format!("user|{}|{}|{}", scn.kind, scn.fin_after, scn.fail_op)));
+}
+
+pub fn user_unit(unit: u64, ctx: &mut Ctx, ctl: &mut UnitCtl) {
+    let scns: Vec<UserShapeScn> = match unit {
+        0 => vec![UserShapeScn { kind: "late".into(), fin_after: 0, fail_op: 0 }],
+        1 => vec![UserShapeScn { kind: "big".into(), fin_after: 32, fail_op: 0 }, UserShapeScn { kind: "big".into(), fin_after: 17, fail_op: 0 }],
+        _ => {
+            // a finalize beyond 2 GiB that fails once at each of its first operations
+            (1..=17).map(|k| UserShapeScn { kind: "big".into(), fin_after: 32, fail_op: k }).collect()
+        }
+    };
+    for scn in scns {
+        if !ctl.before_case(|| Scenario::UserShape(scn.clone())) {
+            continue;
+        }
+        ctx.stats.evaluations += 1;
+        execute_user(&scn, ctx);
+        ctl.after_case(ctx, || Scenario::UserShape(scn.clone()));
     }
 }
